@@ -5,7 +5,7 @@
 EXTENDS PoolOwnership, TraceIO, Known_PoolConc
 
 VARIABLES l, subj, kf
-vars == <<owner, seen, nodes, big, cnt, shared, l, subj, kf>>
+vars == <<owner, seen, nodes, big, ext, cnt, shared, l, subj, kf>>
 
 TraceInit == PoInit /\ shared = {} /\ l = 1 /\ subj = [subject |-> "none"] /\ kf = {}
 
@@ -16,16 +16,20 @@ Cap == IF Has(subj, "cap") THEN subj.cap ELSE 0
 FastMax == IF Has(subj, "fastmax") THEN subj.fastmax ELSE 0
 Rc(sz) == FastMax = 0 \/ sz <= FastMax
 
+(* the bytes of a block: e.pos = <<start div 2^24, start mod 2^24>> (address, or offset of the offset pools), e.len *)
+R(pos, len) == <<pos[1], pos[2], len>>
+Intact(e) == IF Has(e, "intact") THEN e.intact ELSE TRUE
+
 Step(e) ==
     \* every way to obtain one block: allocate / alloc / allocate_with_hint / PooledBuffer::new ... (e.via names it)
-    \/ e.op = "alloc" /\ e.ok  /\ (Has(e, "valid") => e.valid) /\ AllocOk(e.t, e.addr, Rc(e.sz), Cap)
+    \/ e.op = "alloc" /\ e.ok  /\ (Has(e, "valid") => e.valid) /\ AllocOk(e.t, e.addr, Rc(e.sz), Cap, R(e.pos, e.len))
     \/ e.op = "alloc" /\ ~e.ok /\ AllocRefused(e.t)
     \* bulk twins (allocate_bulk_simd / allocate_bulk_with_prefetch): several blocks from one call
     \/ e.op = "allocs" /\ e.ok  /\ (Has(e, "valid") => e.valid) /\ Len(e.addrs) = Len(e.szs)
-                        /\ AllocBulkOk(e.t, e.addrs, [i \in 1..Len(e.szs) |-> Rc(e.szs[i])], Cap)
+                        /\ AllocBulkOk(e.t, e.addrs, [i \in 1..Len(e.szs) |-> Rc(e.szs[i])], Cap, [i \in 1..Len(e.szs) |-> R(e.poss[i], e.szs[i])])
     \/ e.op = "allocs" /\ ~e.ok /\ AllocRefused(e.t)
     \* every way to give one back: deallocate / free / deallocate_with_zero / drop of the RAII guard
-    \/ e.op = "free_start" /\ FreeStart(e.t, e.addr)
+    \/ e.op = "free_start" /\ FreeStart(e.t, e.addr, Intact(e))
     \/ e.op = "free_done"  /\ FreeDone(e.t, e.ok)
     \/ e.op = "clear"      /\ ClearDone(e.ok)
     \/ e.op = "validate"   /\ Validate(e.ok)
